@@ -72,8 +72,12 @@ class Lower:
             return isinstance(t[1], str) and t[1] == t[1].lower()
         if tag == "attr" and t[2] == "compressed":
             return True          # ipaddress renders hex digits in lower case
+        if tag == "call" and flatten(t) != [("val", t)]:
+            return self._template(t, depth)      # "...".format(...), "".join([...]), str(x)
         if tag == "call":
             f = t[1]
+            if f == ("builtin", "str") and len(t[2]) == 2 and t[2][1] == ("const", "ascii") and not t[3]:
+                return self.lower(t[2][0], depth + 1)       # str(b, "ascii") is b.decode("ascii")
             if f[0] == "attr" and f[2] in ("lower", "casefold"):
                 return True
             if f[0] == "attr" and f[2] == "decode" and t[2] and t[2][0] == ("const", "ascii"):
@@ -96,13 +100,16 @@ class Lower:
             return False
         if tag == "sub" and t[2][0] == "slice":
             return self.lower(t[1], depth + 1)
-        parts = flatten(t)
-        if parts != [("val", t)]:
-            # a template (f-string, concatenation, format, ...): every literal and every value except the zone id
-            zones = self.zone_parts(t)
-            return all(p[0] == "lit" and p[1] == p[1].lower() or
-                       p[0] == "val" and (p[1] in zones or self.lower(p[1], depth + 1)) for p in parts)
+        if flatten(t) != [("val", t)]:
+            return self._template(t, depth)
         return False
+
+    def _template(self, t, depth):
+        # a template (f-string, concatenation, format, ...): every literal and every value except the zone id
+        parts = flatten(t)
+        zones = self.zone_parts(t)
+        return all(p[0] == "lit" and p[1] == p[1].lower() or
+                   p[0] == "val" and p[1] != t and (p[1] in zones or self.lower(p[1], depth + 1)) for p in parts)
 
 
 def no_match(facts, pred):
@@ -496,13 +503,22 @@ def ord5(ctx: Ctx):
         # `for c in S: if c in text` or `if any(c in text for c in S)`: membership of an element of a constant string,
         # anywhere in a tested condition
         for t in walk(e.test):
+            coll = None
             if t[0] == "cmp" and t[1] == "In" and t[2][0] == "elem":
-                try:
-                    chars = fold.fold(t[2][1])
-                except CannotFold:
-                    continue
-                if isinstance(chars, str):
-                    screened |= set(chars)
+                coll = t[2][1]
+            # ... or a set operation of a constant character set against the text: S.isdisjoint(text), S.intersection(text)
+            elif t[0] == "call" and t[1][0] == "attr" and t[1][2] in ("isdisjoint", "intersection") and len(t[2]) == 1:
+                coll = t[1][1]
+            if coll is None:
+                continue
+            try:
+                chars = fold.fold(coll)
+            except CannotFold:
+                continue
+            if isinstance(chars, str):
+                screened |= set(chars)
+            elif isinstance(chars, (tuple, list, set, frozenset)) and all(isinstance(c, str) and len(c) == 1 for c in chars):
+                screened |= set(chars)
     # what is legitimately present in an authority ('@' before the host, ':' before the port) is taken out before the
     # normalised form is inspected - otherwise every non-ASCII authority with userinfo or a port would be rejected
     removed = set()
@@ -513,8 +529,9 @@ def ord5(ctx: Ctx):
                 removed |= set(a0[1]) if len(a0[1]) == 1 else {a0[1]}
             elif a0[0] == "elem":
                 try:
-                    removed |= set(fold.fold(a0[1]))
-                except CannotFold:
+                    got = fold.fold(a0[1])
+                    removed |= set(got) if isinstance(got, str) or all(isinstance(c, str) and len(c) == 1 for c in got) else set()
+                except (CannotFold, TypeError):
                     pass
     ctx.instance(rule)
     ctx.ob(rule, fi.qual, "delimiters set aside before normalising", {"@", ":"} <= removed,
